@@ -53,9 +53,21 @@ ValCells ==
   \cup {<<"map", <<ExprefK, x>>>> : x \in RecArrs}
   \cup {<<"to_number", <<x>>>> : x \in Classes \ {JExpref(AIdentity)}}
 
+(* MODE = "near": the value domains over neighbouring doubles (JValue.tla): the contract clauses are about the exact order *)
+NearCluster == {JInt(1), JNear(1, 1, 1), JNear(1, 1, 2), JNear(1, 1, -1), JNear(3, 10, 1), JNum(3, 10)}
+NearObjs == Objs \cup {MkObj(<<JMem(<<98>>, JInt(7)), JMem(<<99>>, JInt(8)), JMem(<<100>>, JInt(9))>>)}
+NearCells ==
+  {<<g, <<x>>>> : g \in {"abs", "ceil", "floor"}, x \in NearCluster \cup {JNear(-1, 1, 1), JNear(-1, 1, -1), JNear(2, 1, -1), JNear(-3, 10, -1)}}
+  \cup {<<"abs", <<x>>>> : x \in {JBig(1, 19), JBig(-11, 18)}}
+  \cup {<<g, <<x>>>> : g \in {"avg", "sum", "max", "min", "sort", "reverse", "length"}, x \in {JArr(s) : s \in Seqs(NearCluster, LEN)}}
+  \cup {<<g, <<x>>>> : g \in {"max", "min", "sort"}, x \in {JArr(s) : s \in Seqs({JBig(1, 19), JBig(11, 18), JBig(-1, 19), JInt(5), JBig(1, 20)}, LEN)}}
+  \cup {<<g, <<x, ExprefK>>>> : g \in {"sort_by", "max_by", "min_by"},
+                                x \in {JArr([i \in DOMAIN ks |-> Rec(ks[i], i)]) : ks \in Seqs(NearCluster \ {JNum(3, 10)}, LEN)}}
+  \cup {<<"merge", <<x, y, z>>>> : x \in NearObjs, y \in NearObjs, z \in NearObjs}
+
 SigCells == {<<g, a>> : g \in FnSet, a \in UNION {[1..n -> Classes] : n \in 0..MAXAR}}
 
-Init == /\ \E c \in (IF MODE = "sig" THEN SigCells ELSE ValCells) : f = c[1] /\ args = c[2]
+Init == /\ \E c \in (IF MODE = "sig" THEN SigCells ELSE IF MODE = "near" THEN NearCells ELSE ValCells) : f = c[1] /\ args = c[2]
         /\ res = VOk(JNull) /\ stage = 0
 Next == stage = 0 /\ stage' = 1 /\ res' = Apply(f, args, Builtins) /\ UNCHANGED <<f, args>>
 Spec == Init /\ [][Next]_<<f, args, res, stage>>
